@@ -208,6 +208,7 @@ func (c *collector) result(id int) unitResult {
 
 func runUnit(u unit) unitResult {
 	c := newCollector()
+	constFill = u.Phase == 1
 	switch u.Phase {
 	case 1:
 		runHistories(u, c)
